@@ -49,16 +49,22 @@ def maskBounds (m : NArr Bool) : Option (List (String × Nat × Nat)) :=
   if !m.data.any id then none else
   some (m.names.filterMap fun d => (trueBounds (m.anyAlong d)).map fun b => (d, b))
 
+/-- where index `x` of dimension `d` of a cropped array sits in the original -/
+def cropShift (bounds : List (String × Nat × Nat)) (d : String) (x : Nat) : Nat :=
+  match bounds.lookup d with
+  | some (lo, _) => x + lo
+  | none => x
+
+/-- the length of dimension `d` (originally `n`) after cropping to `[lo, hi)` -/
+def cropSize (bounds : List (String × Nat × Nat)) (d : String) (n : Nat) : Nat :=
+  match bounds.lookup d with
+  | some (lo, hi) => min hi n - lo
+  | none => n
+
 /-- `isel` with slices: dimension `d` keeps `[lo, hi)`; other dimensions intact -/
 def crop [Inhabited α] (a : NArr α) (bounds : List (String × Nat × Nat)) : NArr α :=
-  ofFn (a.dims.map fun d =>
-      match bounds.lookup d.1 with
-      | some (lo, hi) => (d.1, min hi d.2 - lo)
-      | none => d)
-    fun e => a.get? (e.map fun p =>
-      match bounds.lookup p.1 with
-      | some (lo, _) => (p.1, p.2 + lo)
-      | none => p)
+  ofFn (a.dims.map fun d => (d.1, cropSize bounds d.1 d.2))
+    fun e => a.get? (e.map fun p => (p.1, cropShift bounds p.1 p.2))
 
 /-- `DataArray.where(mask, other=fill)` with the mask broadcast along the variable's other
 dimensions -/
@@ -69,11 +75,14 @@ def whereMask [Inhabited α] (a : NArr (Option α)) (mask : NArr Bool) : NArr (O
     | some false => some none
     | none => none
 
+/-- the positions holding `true`, in increasing order -/
+def keptRows (keep : List Bool) : List Nat :=
+  (List.range keep.length).filter fun i => keep.getD i false
+
 /-- boolean row selection along one dimension: keeps the rows whose flag is true, in order -/
 def selectRows [Inhabited α] (a : NArr α) (d : String) (keep : List Bool) : NArr α :=
-  let rows := (List.range keep.length).filter fun i => keep.getD i false
-  ofFn (a.dims.map fun x => if x.1 == d then (d, rows.length) else x)
-    fun e => a.get? (e.map fun p => if p.1 == d then (d, rows.getD p.2 0) else p)
+  ofFn (a.dims.map fun x => (x.1, if x.1 == d then (keptRows keep).length else x.2))
+    fun e => a.get? (e.map fun p => (p.1, if p.1 == d then (keptRows keep).getD p.2 0 else p.2))
 
 end NArr
 
